@@ -20,7 +20,8 @@ RULE = ("Two strategies. (1) Hypothesis draws a vector / matrix / scalar recipe 
         "shape and values of the same recipe executed with NumPy arrays.  (2) Hypothesis draws a pair of "
         "operands with incompatible shapes for one operation; building must raise (or, if NumPy itself would "
         "broadcast the pair, agree with NumPy).  Non-trivial = the recipe contains a view of a view, a "
-        "reflected operator, an array/list operand, a symmetric matrix, or is a mismatch case.")
+        "reflected operator, an array/list operand, a symmetric matrix, or is a mismatch case."
+        ' Also (round 6): a short-lived twin model whose square matrices have the other symmetry flag is built, evaluated, dropped and collected right before the judged model (id() reuse).')
 BUDGET = {"quick": {"workers": 16, "examples": 1300}, "thorough": {"workers": 16, "examples": 10000}}
 ASSUMPTIONS = ["NumPy broadcasting / slicing / linalg semantics are the definition of the counterpart operation"]
 MANIFEST = {
